@@ -2,6 +2,7 @@ import Treepath.Proofs.Drive
 import Treepath.Model.Api
 import Treepath.Proofs.MachineLemmas
 import Treepath.Proofs.DriveX
+import Treepath.Proofs.Restart
 /- C07 — result iterators are lazy, stay exhausted, and do not interfere -/
 namespace Treepath.C07
 variable {α : Type}
@@ -41,6 +42,14 @@ theorem work_so_far_is_a_prefix (steps : Array (Step J)) (src : Src J) (hq : Qui
     (hy : Yields J.view steps src limit freshIter rs E st') :
     ∃ E2, stream steps.toList 0 src.rootNode = E ++ E2 :=
   yields_stream_prefix steps src hq hp limit st' rs E hy
+
+/-- `iter(it)` on an iterator in any state — part-way, exhausted, stuck at a raising
+predicate — starts the search over: every following sequence of `next()` calls observes
+(events and signals) exactly what it observes on a fresh iterator.  (What `iter()` does is
+not part of the property; this is what the modelled code does, tied by the correspondence.) -/
+theorem iter_again_starts_over {α} (view : α → View α) (steps : Array (Step α)) (src : Src α) (limit k : Nat) (st : St α) :
+    observe view steps src limit k (reiter st) = observe view steps src limit k freshIter :=
+  reiter_is_fresh view steps src limit k st
 
 /-- laziness for every path, raising predicates included: after any number of successful
 `next()` calls the results are a prefix of what the definition produces before its first
